@@ -241,3 +241,252 @@ Fixpoint reorder (names : list bytes) (ps : list (bytes * bytes)) : option (list
     | _, _ => None
     end
   end.
+
+(* ================================================================== transport.go *)
+(* bfe_http.Header restricted to token names: a name is identified by its upper-case form (CanonicalMIMEHeaderKey
+   followed by strings.ToUpper in RoundTrip); values keep insertion order *)
+Definition hmap := list (bytes * list bytes).
+Fixpoint h_add (m : hmap) (k v : bytes) : hmap :=
+  match m with
+  | [] => [(k, [v])]
+  | (k', vs) :: r => if bytes_eqb k k' then (k', vs ++ [v]) :: r else (k', vs) :: h_add r k v
+  end.
+Fixpoint h_set (m : hmap) (k v : bytes) : hmap :=
+  match m with
+  | [] => [(k, [v])]
+  | (k', vs) :: r => if bytes_eqb k k' then (k', [v]) :: r else (k', vs) :: h_set r k v
+  end.
+Definition h_get (m : hmap) (k : bytes) : bytes :=
+  match find (fun kv => bytes_eqb k (fst kv)) m with
+  | Some (_, v :: _) => v
+  | _ => []
+  end.
+Fixpoint join_sep (sep : bytes) (l : list bytes) : bytes :=
+  match l with
+  | [] => []
+  | [x] => x
+  | x :: r => x ++ sep ++ join_sep sep r
+  end.
+
+Fixpoint last_index (c : Z) (l : bytes) : option nat :=
+  match l with
+  | [] => None
+  | x :: r => match last_index c r with
+              | Some i => Some (S i)
+              | None => if x =? c then Some O else None
+              end
+  end.
+(* strings.Replace(s, [c], "", 1) *)
+Fixpoint remove_first (c : Z) (l : bytes) : bytes :=
+  match l with [] => [] | x :: r => if x =? c then r else x :: remove_first c r end.
+Definition has_byte (c : Z) (l : bytes) : bool := existsb (Z.eqb c) l.
+
+(* filepath.Clean / filepath.Join (unix) *)
+Definition DOTDOT : bytes := [46; 46].
+Definition clean_step (rooted : bool) (st : list bytes) (comp : bytes) : list bytes :=   (* st = stack, top first *)
+  if bytes_eqb comp [] || bytes_eqb comp [46] then st
+  else if bytes_eqb comp DOTDOT then
+    match st with
+    | top :: r => if bytes_eqb top DOTDOT then comp :: st else r
+    | [] => if rooted then [] else [comp]
+    end
+  else comp :: st.
+Definition clean (p : bytes) : bytes :=
+  match p with
+  | [] => [46]
+  | c0 :: _ =>
+    let rooted := c0 =? 47 in
+    let comps := rev (fold_left (clean_step rooted) (split_byte 47 p) []) in
+    let body := join_byte 47 comps in
+    if rooted then 47 :: body else match body with [] => [46] | _ => body end
+  end.
+Definition join_path (a b : bytes) : bytes :=
+  match a, b with
+  | [], [] => []
+  | [], _ => clean b
+  | _, [] => clean a
+  | _, _ => clean (a ++ 47 :: b)
+  end.
+
+(* net.SplitHostPort: Some (host, port) or None (error) *)
+Definition split_host_port (hp : bytes) : option (bytes * bytes) :=
+  match last_index 58 hp with
+  | None => None
+  | Some i =>
+    match hp with
+    | 91 :: _ =>
+      match index_byte 93 hp with
+      | None => None
+      | Some e =>
+        if Nat.eqb (S e) i
+        then let host := firstn (e - 1) (skipn 1 hp) in
+             if has_byte 91 (skipn 1 hp) || has_byte 93 (skipn (S e) hp) then None
+             else Some (host, skipn (S i) hp)
+        else None
+      end
+    | _ =>
+      let host := firstn i hp in
+      if has_byte 58 host then None
+      else if has_byte 91 hp || has_byte 93 hp then None
+      else Some (host, skipn (S i) hp)
+    end
+  end.
+
+Definition S_ (s : list Z) : bytes := s.
+Definition mangle (k : bytes) : bytes := map (fun b => if b =? 45 then 95 else b) (to_upper k).
+Definition HTTP_ : bytes := [72; 84; 84; 80; 95].
+
+Record freq := mkReq {
+  q_method : bytes; q_scheme : bytes; q_host : bytes; q_remote : bytes; q_path : bytes; q_query : bytes;
+  q_proto : bytes; q_clen : Z; q_hdrs : list (bytes * list bytes); q_root : bytes; q_env : list (bytes * bytes) }.
+
+(* request headers as bfe_http.Header built with Add: merged per name, in order *)
+Definition req_header (q : freq) : hmap :=
+  fold_left (fun m kv => fold_left (fun m' v => h_add m' (to_upper (fst kv)) v) (snd kv) m) (q_hdrs q) [].
+
+Definition request_uri (q : freq) : bytes :=
+  (match q_path q with [] => [47] | p => p end) ++ (match q_query q with [] => [] | qs => 63 :: qs end).
+
+Definition remote_ip_port (remote : bytes) : bytes * bytes :=
+  let '(ip, port) := match last_index 58 remote with
+                     | Some i => (firstn i remote, skipn (S i) remote)
+                     | None => (remote, [])
+                     end in
+  (remove_first 93 (remove_first 91 ip), port).
+
+Definition A (m : hmap) (k : list Z) (v : bytes) : hmap := h_add m k v.
+
+(* ASCII names of the meta-variables *)
+Definition N_GATEWAY_INTERFACE := [71;65;84;69;87;65;89;95;73;78;84;69;82;70;65;67;69].
+Definition N_SERVER_SOFTWARE := [83;69;82;86;69;82;95;83;79;70;84;87;65;82;69].
+Definition N_AUTH_TYPE := [65;85;84;72;95;84;89;80;69].
+Definition N_CONTENT_LENGTH := [67;79;78;84;69;78;84;95;76;69;78;71;84;72].
+Definition N_CONTENT_TYPE := [67;79;78;84;69;78;84;95;84;89;80;69].
+Definition N_PATH_INFO := [80;65;84;72;95;73;78;70;79].
+Definition N_QUERY_STRING := [81;85;69;82;89;95;83;84;82;73;78;71].
+Definition N_REMOTE_ADDR := [82;69;77;79;84;69;95;65;68;68;82].
+Definition N_REMOTE_HOST := [82;69;77;79;84;69;95;72;79;83;84].
+Definition N_REMOTE_PORT := [82;69;77;79;84;69;95;80;79;82;84].
+Definition N_REMOTE_IDENT := [82;69;77;79;84;69;95;73;68;69;78;84].
+Definition N_REMOTE_USER := [82;69;77;79;84;69;95;85;83;69;82].
+Definition N_REQUEST_METHOD := [82;69;81;85;69;83;84;95;77;69;84;72;79;68].
+Definition N_REQUEST_SCHEME := [82;69;81;85;69;83;84;95;83;67;72;69;77;69].
+Definition N_SERVER_NAME := [83;69;82;86;69;82;95;78;65;77;69].
+Definition N_SERVER_PORT := [83;69;82;86;69;82;95;80;79;82;84].
+Definition N_SERVER_PROTOCOL := [83;69;82;86;69;82;95;80;82;79;84;79;67;79;76].
+Definition N_DOCUMENT_ROOT := [68;79;67;85;77;69;78;84;95;82;79;79;84].
+Definition N_DOCUMENT_URI := [68;79;67;85;77;69;78;84;95;85;82;73].
+Definition N_HTTP_HOST := [72;84;84;80;95;72;79;83;84].
+Definition N_REQUEST_URI := [82;69;81;85;69;83;84;95;85;82;73].
+Definition N_SCRIPT_FILENAME := [83;67;82;73;80;84;95;70;73;76;69;78;65;77;69].
+Definition N_SCRIPT_NAME := [83;67;82;73;80;84;95;78;65;77;69].
+Definition V_CGI11 := [67;71;73;47;49;46;49].
+Definition V_BFE := [66;70;69].
+Definition H_CONTENT_LENGTH := [67;79;78;84;69;78;84;45;76;69;78;71;84;72].   (* upper("Content-Length") *)
+Definition H_CONTENT_TYPE := [67;79;78;84;69;78;84;45;84;89;80;69].
+Definition V_FORM := [97;112;112;108;105;99;97;116;105;111;110;47;120;45;119;119;119;45;102;111;114;109;45;117;114;108;101;110;99;111;100;101;100].
+
+(* buildMetaValsAndMethod *)
+Definition meta_header (q : freq) : hmap :=
+  let rh := req_header q in
+  let '(ip, port) := remote_ip_port (q_remote q) in
+  let '(rhost, rport) := match split_host_port (q_host q) with Some hp => hp | None => (q_host q, []) end in
+  let m := [] in
+  let m := A m N_GATEWAY_INTERFACE V_CGI11 in
+  let m := A m N_SERVER_SOFTWARE V_BFE in
+  let m := A m N_AUTH_TYPE [] in
+  let m := A m N_CONTENT_LENGTH (h_get rh H_CONTENT_LENGTH) in
+  let m := A m N_CONTENT_TYPE (h_get rh H_CONTENT_TYPE) in
+  let m := A m N_PATH_INFO [] in
+  let m := A m N_QUERY_STRING (q_query q) in
+  let m := A m N_REMOTE_ADDR ip in
+  let m := A m N_REMOTE_HOST ip in
+  let m := A m N_REMOTE_PORT port in
+  let m := A m N_REMOTE_IDENT [] in
+  let m := A m N_REMOTE_USER [] in
+  let m := A m N_REQUEST_METHOD (q_method q) in
+  let m := A m N_REQUEST_SCHEME (q_scheme q) in
+  let m := A m N_SERVER_NAME rhost in
+  let m := A m N_SERVER_PORT rport in
+  let m := A m N_SERVER_PROTOCOL (q_proto q) in
+  let m := A m N_DOCUMENT_ROOT (q_root q) in
+  let m := A m N_DOCUMENT_URI (q_path q) in
+  let m := A m N_HTTP_HOST (q_host q) in
+  let m := A m N_REQUEST_URI (request_uri q) in
+  let m := A m N_SCRIPT_FILENAME (join_path (q_root q) (q_path q)) in
+  let m := A m N_SCRIPT_NAME (q_path q) in
+  let m := fold_left (fun m kv => h_set m (to_upper (fst kv)) (snd kv)) (q_env q) m in
+  let m := fold_left (fun m kv => h_add m (HTTP_ ++ mangle (fst kv)) (join_sep [44; 32] (snd kv))) rh m in
+  let m := h_set m N_REQUEST_METHOD (q_method q) in
+  let m := h_set m N_CONTENT_LENGTH (dec_of_Z (q_clen q)) in
+  let ct := match h_get rh H_CONTENT_TYPE with [] => V_FORM | c => c end in
+  h_set m N_CONTENT_TYPE ct.
+
+(* RoundTrip: metaData[strings.ToUpper(k)] = strings.Join(vs, ",") *)
+Definition meta_pairs (q : freq) : list (bytes * bytes) :=
+  map (fun kv => (fst kv, join_sep [44] (snd kv))) (meta_header q).
+
+(* readResponse on well-formed header blocks: lines "Name: value\r\n", closed by an empty line (or the end of the
+   stream); None = outside the modelled sub-language *)
+Definition trim_sp (v : bytes) : bytes := trim is_space v.
+Definition is_tchar (b : Z) : bool :=
+  is_digit b || ((65 <=? b) && (b <=? 90)) || ((97 <=? b) && (b <=? 122)) ||
+  existsb (Z.eqb b) [33; 35; 36; 37; 38; 39; 42; 43; 45; 46; 94; 95; 96; 124; 126].
+Fixpoint cut_lf (b : bytes) : option (bytes * bytes) :=
+  match b with
+  | [] => None
+  | x :: t => if x =? 10 then Some ([], t)
+              else match cut_lf t with Some (l, r) => Some (x :: l, r) | None => None end
+  end.
+Fixpoint reply_lines (fuel : nat) (s : bytes) : option (list (bytes * bytes) * bytes) :=
+  match s with
+  | [] => Some ([], [])
+  | _ =>
+    match fuel with
+    | O => None
+    | S f =>
+      match cut_lf s with
+      | None => None
+      | Some (l, rest) =>
+        match rev l with
+        | 13 :: rl =>
+          let line := rev rl in
+          match line with
+          | [] => Some ([], rest)
+          | _ =>
+            match index_byte 58 line with
+            | None => None
+            | Some i =>
+              let name := firstn i line in
+              let value := skipn (S i) line in
+              if forallb is_tchar name && negb (Nat.eqb i 0)
+                 && forallb (fun b => (32 <=? b) && (b <? 127)) value
+              then match reply_lines f rest with
+                   | Some (hs, body) => Some ((to_upper name, trim_sp value) :: hs, body)
+                   | None => None
+                   end
+              else None
+            end
+          end
+        | _ => None
+        end
+      end
+    end
+  end.
+Definition N_STATUS := [83;84;65;84;85;83].
+(* (rterr, status, body): status from the first non-empty Status header (its first word through Atoi), else 200 *)
+Definition parse_reply (st : bytes) : option (Z * Z * bytes) :=
+  match reply_lines (S (length st)) st with
+  | None => None
+  | Some (hs, body) =>
+    let sv := match find (fun kv => bytes_eqb N_STATUS (fst kv)) hs with Some (_, v) => v | None => [] end in
+    match sv with
+    | [] => Some (0, 200, body)
+    | _ =>
+      let w := match index_byte 32 sv with Some i => firstn i sv | None => sv end in
+      match parse_dec w with
+      | Some n => if n <? 100000000 then Some (0, n, body) else None
+      | None => if forallb (fun b => is_digit b || (b =? 45) || (b =? 43)) w && negb (Nat.eqb (length w) 0) then None else Some (3, 0, [])
+      end
+    end
+  end.
